@@ -45,7 +45,7 @@ NWORK = 12
 def _cfg(spec, dev, bounds, kinds=ALL_KINDS, invs=()):
     ks = ", ".join('"%s"' % k for k in kinds)
     ds = ", ".join('"%s"' % d for d in dev)
-    return (f"SPECIFICATION {spec}\nCONSTANTS Deviations = {{{ds}}}\n GenKinds = {{{ks}}}\n"
+    return (f"SPECIFICATION {spec}\nCONSTANTS Deviations = {{{ds}}}\n GenKinds = {{{ks}}}\n PdfSweep = \"{bounds['pdfsweep']}\"\n"
             f" MaxRecs = {bounds['recs']}\n MaxEntries = {bounds['entries']}\n MaxMembers = {bounds['members']}\n"
             f" MaxFolders = {bounds['folders']}\n" + "".join(f"INVARIANT {i}\n" for i in invs))
 
@@ -106,8 +106,8 @@ def _mk_cases(containers, ctx):
 
 def run(ctx):
     ev, v = ctx.ev, ctx.v
-    bounds = ({"recs": 4, "entries": 3, "members": 3, "folders": 2} if ctx.thorough
-              else {"recs": 3, "entries": 2, "members": 2, "folders": 2})
+    bounds = ({"recs": 4, "entries": 3, "members": 3, "folders": 2, "pdfsweep": "full"} if ctx.thorough
+              else {"recs": 3, "entries": 2, "members": 2, "folders": 2, "pdfsweep": "diag"})
     # the theorem runs may use larger bounds than the replay (no artefact has to be built for them)
     tbounds = dict(bounds, recs=bounds["recs"] + 1)
 
@@ -177,6 +177,8 @@ def run(ctx):
                     a = agg.setdefault(t["hdr"]["c"]["kind"], [0, 0.0])
                     a[0] += 1
                     a[1] += t["meta"]["dt"]
+            slow = sorted((t for t in traces if t["hdr"]["entry"] == "direct"), key=lambda t: -t["meta"]["dt"])[:6]
+            ctx.log("slowest: " + "; ".join(f"{t['meta']['dt']}s {t['hdr']['c'].get('alg', t['hdr']['c']['kind'])}" for t in slow))
             ctx.log("cpu per kind: " + ", ".join(f"{k2}: {n} cases {s2:.1f}s" for k2, (n, s2) in sorted(agg.items())))
         fx = [t for part in f_fx.result() for t in part]
     n_named = sum(1 for t in fx if t["ev"][0].get("named"))
@@ -308,11 +310,19 @@ def _pool(mode, shards, ctx, cdir, maxpar=14):
 
 
 def _shards(cases):
-    """PDF cases one per process: whether pypdf's AES fallback is already patched in is process history, and the
+    """PDF cases grouped per (algorithm, passwords), a fresh process each: whether pypdf's AES fallback is already patched in is process history, and the
     property speaks about a single extraction (C15 covers histories); everything else in NWORK shards."""
     pdf = [c for c in cases if c["c"]["kind"] == "pdf"]
     rest = [c for c in cases if c["c"]["kind"] != "pdf"]
-    return [[c] for c in pdf] + [sh for sh in (rest[i::NWORK] for i in range(NWORK)) if sh]
+    groups = {}
+    for c in pdf:
+        cc = c["c"]
+        # the plaintext-length layouts of one (algorithm, passwords) share a process: its first case meets the fresh
+        # interpreter; AES-256 revision 6 costs seconds per open (pure-Python key derivation), so one case per process
+        key = (cc["alg"], cc["userEmpty"], cc["owner"]) + ((c["id"],) if cc["alg"] == "AES-256" else ())
+        groups.setdefault(key, []).append(c)
+    pdf_shards = sorted(groups.values(), key=lambda g: (g[0]["c"]["alg"] != "AES-256", -len(g)))
+    return pdf_shards + [sh for sh in (rest[i::NWORK] for i in range(NWORK)) if sh]
 
 
 # =========================================================================== workers
@@ -330,7 +340,7 @@ def _build_one(case, cdir, rng, B):
     elif k == "odf":
         data, proj = B.build_odf(c, ext, rng), B.project_odf
     elif k == "pdf":
-        plain = B.plain_pdf(case.get("rep", 0))
+        plain = B.plain_pdf_for(c, case.get("rep", 0))
         data, proj = B.build_pdf(c, rng, plain), B.project_pdf
         (cdir / f"{case['id']}").mkdir(exist_ok=True)
         (cdir / f"{case['id']}" / "plain.pdf").write_bytes(plain)
@@ -447,6 +457,21 @@ def _cli_stdout(cli, path):
     return code, so.getvalue()
 
 
+def _summary(results):
+    """Projection of extraction results for the same-as-original comparison (paths dropped: the files differ in name)."""
+    import hashlib
+    out = []
+    for r in results:
+        md = dict(r.get_metadata().to_dict())
+        for key in ("filename", "file_path", "folder_path"):
+            md.pop(key, None)
+        out.append({"text": r.get_full_text(), "units": [u.get_text() for u in r.iterate_units()],
+                    "tables": [t.get_table() for t in r.iterate_tables()],
+                    "images": [hashlib.sha1(i.get_bytes().getvalue()).hexdigest() for i in r.iterate_images()],
+                    "meta": md})
+    return out
+
+
 def _observe(path, ext, kind, rec, Enc, same_fn=None, plain_path=None):
     """Run one file through the three entry points; returns {entry: events}."""
     import contextlib
@@ -460,9 +485,11 @@ def _observe(path, ext, kind, rec, Enc, same_fn=None, plain_path=None):
     rec.events, rec.kind = evs, kind
     try:
         fn = _extractor_for(ext)
-        for _ in fn(io.BytesIO(data), str(path)):
+        results = []
+        for r in fn(io.BytesIO(data), str(path)):
             evs.append({"a": "Yield"})
-        evs.append({"a": "End", "same": same_fn() if same_fn else "n/a", "exit": 0, "out": "n/a"})
+            results.append(r)
+        evs.append({"a": "End", "same": same_fn(results, "direct") if same_fn else "n/a", "exit": 0, "out": "n/a"})
     except Exception as e:
         evs.append({"a": "Raise", "cls": _cls(e, Enc), "name": type(e).__name__, "exit": 1, "out": "n/a"})
     out["direct"] = evs
@@ -470,9 +497,11 @@ def _observe(path, ext, kind, rec, Enc, same_fn=None, plain_path=None):
     evs = []
     rec.events, rec.kind = evs, kind
     try:
-        for _ in sharepoint2text.read_file(str(path)):
+        results = []
+        for r in sharepoint2text.read_file(str(path)):
             evs.append({"a": "Yield"})
-        evs.append({"a": "End", "same": same_fn() if same_fn else "n/a", "exit": 0, "out": "n/a"})
+            results.append(r)
+        evs.append({"a": "End", "same": same_fn(results, "read_file") if same_fn else "n/a", "exit": 0, "out": "n/a"})
     except Exception as e:
         evs.append({"a": "Raise", "cls": _cls(e, Enc), "name": type(e).__name__, "exit": 1, "out": "n/a"})
     out["read_file"] = evs
@@ -534,6 +563,7 @@ def _init_worker():
 
 
 def _worker_run(inp, out, cdir):
+    import io
     rec, Enc = _init_worker()
     from .. import docrun
     cases = json.loads(Path(inp).read_text())
@@ -546,10 +576,15 @@ def _worker_run(inp, out, cdir):
             plain = plain_path.read_bytes()
             enc = Path(path).read_bytes()
 
-            def same_fn(plain=plain, enc=enc):
-                a = docrun.observe({"fmt": "pdf", "data": plain, "path": "gen.pdf"})
-                b = docrun.observe({"fmt": "pdf", "data": enc, "path": "gen.pdf"})
-                return "yes" if a == b and "exc" not in a else "no"
+            def same_fn(results, entry, plain=plain, enc=enc, memo={}):
+                # (1) everything the results expose -- text, units, tables, image bytes, metadata -- against the
+                #     original's, (2) once per case, the shared token observation docrun.observe on both files
+                if "plain" not in memo:
+                    memo["plain"] = _summary(list(_extractor_for("pdf")(io.BytesIO(plain), "gen.pdf")))
+                    memo["tok"] = (docrun.observe({"fmt": "pdf", "data": plain, "path": "gen.pdf"})
+                                   == docrun.observe({"fmt": "pdf", "data": enc, "path": "gen.pdf"}))
+                ok = memo["tok"] and memo["plain"] and _summary(results) == memo["plain"]
+                return "yes" if ok else "no"
         t0 = time.time()
         obs = _observe(path, ext, c["kind"], rec, Enc, same_fn, plain_path)
         dt = round(time.time() - t0, 3)
